@@ -4,8 +4,14 @@
 //! trusted: R15 (deep slices): NetworkGraph::update_channel_internal, update_node_from_announcement_intern and remove_stale_channels_and_tracking_with_time work on IndexedMaps behind RwLocks with signature checks through secp256k1; the unit extracts, on every run and verbatim, (a) the body of the closure check_update_latest, (b) the body of the closure check_msg_sanity (its two calls of check_update_latest get the message as an explicit argument), (c) the chain-hash test and the MAX_VALUE_MSAT test at the top of update_channel_internal, (d) the timestamp test of the node announcement, (e) the per-channel body of the pruning loop (`scids_to_remove.insert(*scid)` becomes setting a flag); (f) pre_channel_announcement_validation_check with the map lookup replaced by its result as a parameter (R5); (g) verify_channel_announcement / verify_node_announcement whole, with the function-local macros expanded by rule (R8): `secp_verify_sig!(ctx, m, s, k, _)` -> `match ctx.verify_ecdsa(m, s, k) { Ok(_) => {}, Err(_) => return Err(..) }` and `get_pubkey_from_node_id!(n, _)` -> the external_body pubkey_from_node_id(n) with `?`-style early return, `hash_to_message!(message_sha256d_hash(..))` -> an uninterpreted hash of the contents; verify_ecdsa is external_body over the uninterpreted sig_valid; (h) the choice of the signing node of a channel_update (`.as_slice()` dropped, R5); (i) the replace-or-refuse test of add_channel_between_nodes; (j) the recently-removed test of update_channel_from_unsigned_announcement_intern (the two tracking maps are stubs with a ghost key set); map lookups, storing the new information, removing channels from the node table and the order-independence of the whole graph are dropped and not claimed
 //! trusted: env: ChannelInfo {one_to_two, two_to_one, capacity_sats, announcement_received_time}, ChannelUpdateInfo {last_update}, UnsignedChannelUpdate {chain_hash, timestamp, channel_flags, htlc_maximum_msat}, NodeAnnouncementInfo {last_update} are field skeletons; ChainHash is an opaque identity; LightningError loses its text and action (R8)
 //! trusted: R15 (deep slices, k): node_failed_permanent: the expression choosing the other end of each of the failed node's channels and the predicate of the `retain` on that neighbour's channel list, verbatim as functions (ChannelEnds is a two-field skeleton of ChannelInfo); removing the node, its channels and emptied neighbours from the maps and recording the removals are dropped and not claimed
+//! trusted: assume_specification for core::cmp::max / core::cmp::min (std definitions): present in every unit so that a change that introduces them is verified instead of being rejected by the tool
 use vstd::prelude::*;
 verus! {
+use core::cmp;
+pub assume_specification<T: core::cmp::Ord>[core::cmp::max::<T>](a: T, b: T) -> (r: T)
+    ensures T::obeys_cmp_spec() ==> r == (if b.cmp_spec(&a) == core::cmp::Ordering::Less { a } else { b });
+pub assume_specification<T: core::cmp::Ord>[core::cmp::min::<T>](a: T, b: T) -> (r: T)
+    ensures T::obeys_cmp_spec() ==> r == (if b.cmp_spec(&a) == core::cmp::Ordering::Less { b } else { a });
 use vstd::std_specs::cmp::*;
 #[derive(Clone, Copy)] pub struct ChainHash(pub u64);
 impl PartialEqSpecImpl for ChainHash { open spec fn obeys_eq_spec() -> bool { true } open spec fn eq_spec(&self, other: &ChainHash) -> bool { self.0 == other.0 } }
